@@ -22,7 +22,7 @@ def gen_program(rng, pkg, n=None, p_explicit=0.15, p_hidden=0.12, min_memento=2)
         nd = {"name": "f%d" % i, "mod": "b" if i < split else "a", "kind": kind, "version": None,
               "params": [["x", None]], "kwonly": [], "const": rng.randint(1, 9), "tconst": None, "sconst": None,
               "op": rng.choice(["+", "-", "*"]), "nested": None, "reads": [], "calls": [], "wrap_param": None,
-              "swap": False}
+              "swap": False, "tfn": "sum"}
         if kind == "memento" and rng.random() < p_explicit:
             nd["version"] = "v1"
         if rng.random() < 0.4:
@@ -34,7 +34,7 @@ def gen_program(rng, pkg, n=None, p_explicit=0.15, p_hidden=0.12, min_memento=2)
         if rng.random() < 0.5:
             nd["sconst"] = sorted(rng.sample(["alpha", "beta", "gamma", "delta", "eps", "zeta"], rng.randint(2, 4)))
         if kind == "wrapped":
-            nd["wrap_param"] = rng.choice(WRAP_PARAMS)
+            nd["wrap_param"] = "a" if (nd["mod"] == "b" and rng.random() < 0.6) else rng.choice(WRAP_PARAMS)
         nodes.append(nd)
     # variables
     vars_ = []
@@ -63,9 +63,11 @@ def gen_program(rng, pkg, n=None, p_explicit=0.15, p_hidden=0.12, min_memento=2)
                 nd["nested"]["form"] = "bare" if f == "alias" else f
     aliases = []
     for i, nd in enumerate(nodes):
-        for c in nd["calls"]:
+        for c in list(nd["calls"]):
             if c["form"] == "alias":
                 ensure_alias(aliases, nodes, c, nd)
+                if rng.random() < 0.35 and len(nd["calls"]) < 4:  # ... and by its own name as well
+                    nd["calls"].append({"t": c["t"], "form": "bare" if nodes[c["t"]]["mod"] == nd["mod"] or nd["mod"] == "b" else "bare"})
     return {"pkg": pkg, "split": split, "nodes": nodes, "vars": vars_, "aliases": aliases, "serial": 0}
 
 
@@ -85,7 +87,7 @@ def new_call(rng, nodes, i, t, p_hidden):
 
 def read_form(rng, nd, var):
     if nd["mod"] == "b" and var["mod"] == "a":
-        return rng.choice(["bare", "attr"])
+        return "attr" if nd["kind"] == "wrapped" else rng.choice(["bare", "attr"])
     return "bare"
 
 
@@ -151,7 +153,7 @@ def render_def(prog, i):
     first = ("x %s %d" % (nd["op"], nd["const"])) if not nd["swap"] else ("%d %s x" % (nd["const"], nd["op"]))
     L.append("    r = %s" % first)
     if nd["tconst"]:
-        L.append("    r += sum(%r)" % (tuple(nd["tconst"]),))
+        L.append("    r += %s(%r)" % (nd.get("tfn", "sum"), tuple(nd["tconst"])))
     if nd["sconst"]:
         L.append("    if \"alpha\" in {%s}:" % ", ".join(repr(s) for s in nd["sconst"]))
         L.append("        r += 1")
@@ -315,7 +317,7 @@ def apply_special(rng, prog, kind):
     raise ValueError(kind)
 
 
-EDIT_KINDS = ["const", "tconst", "sconst", "nested_const", "op", "swap", "add_param", "default", "kwdefault",
+EDIT_KINDS = ["const", "tconst", "builtin", "sconst", "nested_const", "op", "swap", "add_param", "default", "kwdefault",
               "add_call", "remove_call", "retarget_call", "retarget_alias", "var_value", "var_mutate", "version_bump",
               "hidden_target"]
 
@@ -344,6 +346,11 @@ def apply_edit(rng, prog, kind=None):
         for i in cand:
             if nodes[i]["tconst"]:
                 nodes[i]["tconst"][rng.randrange(len(nodes[i]["tconst"]))] += rng.randint(1, 4)
+                return done(i)
+    if kind == "builtin":  # changes nothing but a name in co_names
+        for i in cand:
+            if nodes[i]["tconst"] and len(set(nodes[i]["tconst"])) > 1:
+                nodes[i]["tfn"] = {"sum": "max", "max": "min", "min": "sum"}[nodes[i].get("tfn", "sum")]
                 return done(i)
     if kind == "sconst":
         for i in cand:
@@ -423,7 +430,8 @@ def apply_edit(rng, prog, kind=None):
             opts = [t for t in range(lo + 1, len(nodes)) if t != al["target"]
                     and (al["mod"] == "b" or nodes[t]["mod"] == "a")]
             if opts:
-                al["target"] = rng.choice(opts)
+                direct = [t for t in opts if any(c["t"] == t and c["form"] != "alias" for i in users for c in nodes[i]["calls"])]
+                al["target"] = rng.choice(direct if direct and rng.random() < 0.6 else opts)
                 for i in users:
                     for c in nodes[i]["calls"]:
                         if c.get("alias") == al["name"]:
